@@ -172,7 +172,7 @@ def permute_row(rowobs, i, j):
 
 
 def run_md(engine, mols, params, steps, dt=0.5, temp=0.0, velocities=None, pad_extra=0, pattern="zero", k=3,
-           xl_extra=None, seed=0, horizon=None):  # fmt: skip
+           xl_extra=None, seed=0, horizon=None, remove_com=None):  # fmt: skip
     """Like drivers.md.run_md but the batch is assembled by `assemble` (per-slot padding coordinates).
     `velocities`: list of per-molecule (n_atoms, 3) arrays (padding slots get zero velocity).
     Returns h5.<k> dataset dicts, stdout, error, the assembled input coordinates and the final coordinates."""
@@ -203,9 +203,9 @@ def run_md(engine, mols, params, steps, dt=0.5, temp=0.0, velocities=None, pad_e
             try:
                 if horizon is not None:
                     with horizon:
-                        md.run(molecule, steps=steps, reuse_P=True, remove_com=None, seed=seed)
+                        md.run(molecule, steps=steps, reuse_P=True, remove_com=(tuple(remove_com) if remove_com else None), seed=seed)
                 else:
-                    md.run(molecule, steps=steps, reuse_P=True, remove_com=None, seed=seed)
+                    md.run(molecule, steps=steps, reuse_P=True, remove_com=(tuple(remove_com) if remove_com else None), seed=seed)
             except Exception as e:  # noqa: BLE001
                 err = f"{type(e).__name__}: {e}"
         res = MD.collect("md", range(nmol))
